@@ -227,6 +227,18 @@ func (fa *filterAnalyzer) isTransfer(s ast.Stmt) bool {
 		if !anyT {
 			return false
 		}
+		// a stage function that is handed the element together with the address of an outer accumulator
+		// (e.writeLineText(&sb, line)): the element's content goes where the accumulator is
+		for _, a := range call.Args {
+			if ue, ok := a.(*ast.UnaryExpr); ok && ue.Op == token.AND {
+				if o := fa.rootObj(ue.X); o != nil && !(fa.local[o] && (fa.tainted[o] || fa.fresh[o])) {
+					switch fa.info.TypeOf(ue.X).Underlying().(type) {
+					case *types.Struct, *types.Slice, *types.Map:
+						return true
+					}
+				}
+			}
+		}
 		if sel, ok := call.Fun.(*ast.SelectorExpr); ok {
 			if o := fa.rootObj(sel.X); o != nil && !(fa.local[o] && (fa.tainted[o] || fa.fresh[o])) {
 				n := sel.Sel.Name
